@@ -4,7 +4,8 @@ Part (i)  programs: every class shape in a bounded grammar (object + up to 2 con
           names {a,b}, version sets within {0,1,2}) generated as source text and exec'ed so that the
           real `replicated` decorator sees a real class body; for every (old, new) pair where new
           only adds versions higher than every version in old, the id -> (owner, name, version)
-          table of old must be a prefix of new's.
+          table of old must be a prefix of new's; and for every shape and every enabled version a
+          call by name must be encoded with the id of the newest implementation not above it.
 Part (ii) histories (engine E1): nodes running old and new code, setCodeVersion placed anywhere
           relative to submissions, compaction, snapshot install, restart.
 """
@@ -61,6 +62,50 @@ def id_table(shape):
     return out
 
 
+def dispatch_check(shape):
+    """For every enabled version e: a call by name must be encoded with the id of the newest
+    implementation whose version is <= e; a name with no such implementation is not callable."""
+    import pickle
+    from mc import cluster, seams
+    from pysyncobj import SyncObj, SyncObjConf, SyncObjConsumer, replicated
+    objm, cons = shape
+    ns = dict(SyncObj=SyncObj, SyncObjConsumer=SyncObjConsumer, replicated=replicated,
+              CONF=lambda: SyncObjConf(autoTick=False))
+    src = class_source('Obj', 'SyncObj', objm)
+    for i, cm in enumerate(cons):
+        src += class_source('Cons%d' % i, 'SyncObjConsumer', cm)
+    exec(compile(src, '<c17>', 'exec'), ns)
+    consumers = [ns['Cons%d' % i]() for i in range(len(cons))]
+    so = ns['Obj'](cluster.SimTransport('n1:1'), consumers)
+    sent = []
+    so._applyCommand = lambda cmd, cb, t=None: sent.append(cmd)
+    owners = [so] + consumers
+    n = 0
+    for e in (0, 1, 2):
+        getattr(so, '_SyncObj__onSetCodeVersion')(e)
+        for oi, meths in enumerate([objm] + list(cons)):
+            for name, versions in sorted(meths.items()):
+                n += 1
+                want = max([v for v in versions if v <= e], default=None)
+                del sent[:]
+                try:
+                    getattr(owners[oi], name)()
+                except KeyError:
+                    got = None
+                else:
+                    cmd = pickle.loads(sent[0])
+                    fid = cmd if isinstance(cmd, int) else cmd[0]
+                    meth = so._idToMethod[fid]
+                    r = meth(_doApply=True)
+                    got = r[2]
+                    if meth.__self__ is not owners[oi] or r[1] != name:
+                        return n, 'C17 class %r, enabled version %d: call of %s.%s is encoded as %r' % (shape, e, r[0], name, r)
+                if got != want:
+                    return n, ('C17 class %r, enabled version %d: a call of method %r of owner %d uses the implementation of version %r; '
+                               'the newest implementation not above the enabled version is %r' % (shape, e, name, oi, got, want))
+    return n, None
+
+
 def all_method_maps(names):
     opts = [None] + VERSETS
     for combo in itertools.product(opts, repeat=len(names)):
@@ -97,12 +142,19 @@ def programs_job(name, max_consumers):
             cache[k] = id_table(shape)
         return cache[k]
     pairs = 0
+    ndisp = [0]
     for ncons in range(0, max_consumers + 1):
         for objm in all_method_maps(('a', 'b')):
             for cons in itertools.product(list(all_method_maps(('a',))), repeat=ncons):
                 shape = (objm, list(cons))
                 old = table(shape)
                 res.states += 1
+                nd, bad = dispatch_check(shape)
+                ndisp[0] += nd
+                if bad:
+                    res.violations.append(dict(msg=bad, sig='wrong-implementation-for-version', trace=[repr(shape), 'dispatch']))
+                    res.transitions = pairs
+                    return res
                 for new_shape in extensions(shape):
                     new = table(new_shape)
                     pairs += 1
@@ -115,7 +167,7 @@ def programs_job(name, max_consumers):
     res.transitions = pairs
     res.outcomes = set(repr(v) for v in cache.values())
     res.samples = [[repr(shape), repr(old)]]
-    res.extra.update(dict(class_shapes=res.states, old_new_pairs=pairs, distinct_id_tables=len(res.outcomes)))
+    res.extra.update(dict(class_shapes=res.states, old_new_pairs=pairs, dispatch_cases=ndisp[0], distinct_id_tables=len(res.outcomes)))
     res.wall_s = time.time() - t0
     return res
 
@@ -150,6 +202,8 @@ def specs(tier):
 
 def replay_programs(name, trace):
     import ast
+    if trace[1] == 'dispatch':
+        return dispatch_check(ast.literal_eval(trace[0]))[1]
     old_shape, new_shape = ast.literal_eval(trace[0]), ast.literal_eval(trace[1])
     old, new = id_table(old_shape), id_table(new_shape)
     if [t[:3] for t in new[:len(old)]] != [t[:3] for t in old]:
@@ -172,4 +226,13 @@ def main(tier, seed, job_filter=None):
 
 
 def replay_file(path):
+    import json
+    d = json.load(open(path))
+    if d['job'].startswith('programs'):
+        msg = replay_programs(d['job'], d['trace'])
+        print('replay:', msg)
+        if msg:
+            print('VIOLATION property=%s replay=%s' % (PROP, path))
+            return 1
+        return 0
     return jobs.replay_file_cluster(PROP, path, [dict(s, clauses=CL, extra_monitors=(VM,)) for s in specs('thorough')])
